@@ -76,7 +76,7 @@ def make_worker(tier):
 def run(args):
     chk = common.Check('C07', 'fault_enumeration', args.tier)
     fams = base.families_for(args.tier, args.families, quick=('S0', 'S1', 'S5'), thorough=('S0', 'S1', 'S2', 'S4', 'S5'))
-    stats, distinct, samples = base.run_sweep(chk, args, make_worker(args.tier), fams=fams)
+    stats, distinct, samples = base.run_sweep(chk, args, make_worker(args.tier), fams=fams, shape_tier='quick')
     cov = dict(evaluations=stats['evaluations'], distinct_nontrivial=len(distinct), faults_fired=stats['fired'],
                rule='for the typical (thorough: also first/last) value of every type of families %s and each of the 5 encoders: counting callback vs reported size; '
                     'asn_encode_to_buffer with EVERY buffer size 0..n+1 (exact-size heap block); asn_encode_to_new_buffer; callback returning -1 at EVERY invocation index '
